@@ -95,17 +95,30 @@ func hexes(fs [][]byte) []string {
 // consumer drains Inbound and logs every frame; logs a note when the channel closes.
 func c16Consumer(in *mc.Chan[knxnet.Service], done *mc.Chan[int]) {
 	mc.GoEnv("consumer", func() {
+		var kept []knxnet.Service
 		for {
 			v, ok := in.Recv2()
 			if !ok {
+				// what the delivered frames look like once every later frame has been received
+				var late []string
+				for _, k := range kept {
+					late = append(late, svcHex(k))
+				}
+				mc.Log(RxLate{late})
 				mc.Log(Note("inbound closed"))
 				done.Send(1)
 				return
 			}
+			kept = append(kept, v)
 			mc.Log(RxSvc{svcHex(v)})
 		}
 	})
 }
+
+// RxLate is logged when Inbound closes: the frames received, rendered again at that moment.
+type RxLate struct{ Hex []string }
+
+func (r RxLate) String() string { return fmt.Sprintf("RX-FRAMES-AT-END %v", r.Hex) }
 
 func censusNote() {
 	var desc []string
@@ -255,6 +268,9 @@ func c16Items() []c16Item {
 		{b: fs[1], wellUDP: true, wellTCP: true, name: "TunnelRes"},
 		{b: fs[2], wellUDP: true, wellTCP: true, name: "TunnelReq"},
 		{b: fs[0], wellUDP: true, wellTCP: true, name: "ConnStateRes"},
+		{b: pack(&knxnet.TunnelReq{Channel: 2, SeqNumber: 4, Payload: &cemi.LDataInd{LData: cemi.LData{Info: cemi.Info{1, 2, 3, 4, 5}, Control2: cemi.Control2GroupAddr, Source: 0x1203, Destination: 0x0905, Data: &cemi.AppData{Command: cemi.GroupValueWrite, Data: []byte{1, 0xAA, 0xBB, 0xCC}}}}}), wellUDP: true, wellTCP: true, name: "TunnelReq-with-additional-info"},
+		{b: fr(0x0204, hex.EncodeToString(devDIB(0x1107))+"04020201"+"08fe0102030405aa"), wellUDP: true, wellTCP: true, name: "DescriptionRes-with-further-DIB"},
+		{b: pack(&knxnet.RoutingInd{Payload: &cemi.LRawInd{LRaw: cemi.LRaw{9, 8, 7, 6, 5, 4, 3, 2, 1}}}), wellUDP: true, wellTCP: true, name: "RoutingInd-raw"},
 		{b: fs[1], foreign: true, wellTCP: true, name: "TunnelRes-from-foreign-source"},
 		{b: fr(0x0206, ""), name: "ConnRes-empty-body"},
 		{b: fr(0x0206, "05"), name: "ConnRes-1-octet-body"},
@@ -469,7 +485,8 @@ func c16Oracle(prop string, census bool) func(tr *mc.Trace) []h.Violation {
 			vs = append(vs, h.Violation{Class: prop + ":" + class, Msg: fmt.Sprintf(format, a...)})
 		}
 		var want *Want
-		var got []string
+		var got, late []string
+		haveLate := false
 		closed := false
 		hist := ""
 		var cen *Census
@@ -483,6 +500,9 @@ func c16Oracle(prop string, census bool) func(tr *mc.Trace) []h.Violation {
 				want = &w
 			case RxSvc:
 				got = append(got, x.Hex)
+			case RxLate:
+				late = x.Hex
+				haveLate = true
 			case Note:
 				if x == "inbound closed" {
 					closed = true
@@ -531,6 +551,9 @@ func c16Oracle(prop string, census bool) func(tr *mc.Trace) []h.Violation {
 			if want.MustClose && !closed {
 				bad("inbound-not-closed", "%s: Inbound was not closed after the connection ended", hist)
 			}
+		}
+		if haveLate && fmt.Sprint(late) != fmt.Sprint(got) && !(len(late) == 0 && len(got) == 0) {
+			bad("frame-content-changes-after-delivery", "%s: the frames delivered on Inbound were %v; rendered again after the later frames had been received the same values read %v (a delivered frame shares memory with the receive buffer)", hist, got, late)
 		}
 		if census && cen != nil && cen.N > 0 {
 			bad("receiver-leak", "%s: %d library goroutine(s) still alive after the connection ended and Inbound was drained: %s", hist, cen.N, cen.Desc)
